@@ -30,8 +30,9 @@ L['C01'] = dict(modules=['Schc.Properties.C01'], level='proof', technique='Lean 
               T('C01_manager', 'full', 'through the context manager, FIRST or BEST, prefix-free rule IDs: found again from the rule ID and restored'),
               T('C01_roundtrip_compute', 'full', 'round trip for rules with compute fields, given that the compute functions regenerate the elided values'),
               T('C01_ipv6_udp_compute', 'full', 'IPv6/UDP(/anything) packets with valid lengths and checksum: round trip with any subset of payload length, UDP length, UDP checksum computed'),
-              T('C01_ipv4_udp_compute', 'full', 'IPv4/UDP(/anything) packets with valid total length, header checksum, UDP length, UDP checksum: round trip with any subset of the four computed')],
-    level_text='Proved over the model for all packets/rules/rule sets under the stated hypotheses: fields+payload spell the raw packet (C07), descriptors all apply to the packet direction (the C18 finding excludes the rest), pairings equal/not-sent, ignore/value-sent, MSB/LSB, match-mapping/mapping-sent with Fits. Compute fields: C01_roundtrip_compute reduces the round trip to the compute functions regenerating the elided values, and C01_ipv6_udp_compute / C01_ipv4_udp_compute discharge that for the IPv6/UDP and IPv4/UDP stacks (any subset of the computable fields, valid packets; concrete valid packets are kernel-checked examples). The SCTP checksum as a compute field is checked by correspondence on generated packets, not by a theorem.')
+              T('C01_ipv4_udp_compute', 'full', 'IPv4/UDP(/anything) packets with valid total length, header checksum, UDP length, UDP checksum: round trip with any subset of the four computed'),
+              T('C01_sctp_compute', 'full', 'SCTP packets with a valid CRC-32c: round trip with the checksum computed')],
+    level_text='Proved over the model for all packets/rules/rule sets under the stated hypotheses: fields+payload spell the raw packet (C07), descriptors all apply to the packet direction (the C18 finding excludes the rest), pairings equal/not-sent, ignore/value-sent, MSB/LSB, match-mapping/mapping-sent with Fits. Compute fields: C01_roundtrip_compute reduces the round trip to the compute functions regenerating the elided values, and C01_ipv6_udp_compute / C01_ipv4_udp_compute discharge that for the IPv6/UDP and IPv4/UDP stacks (any subset of the computable fields, valid packets; concrete valid packets are kernel-checked examples). C01_sctp_compute does the same for the SCTP checksum. So every registered compute function is covered at its stack position.')
 L['C04'] = dict(modules=['Schc.Properties.C04'], level='proof', technique='Lean 4 theorem: matcher = filter by the declarative applicability predicate',
     theorems=[T('C04_match', 'full', 'match_packet_descriptor = rules.filter Spec.applicable (soundness, completeness, order)'),
               T('C04_field', 'full', 'one field vs one descriptor, all four operators'), T('C04_first', 'full', 'the first yielded rule'),
@@ -120,6 +121,7 @@ L['C09'] = dict(modules=['Schc.Properties.C09', 'Schc.Properties.C01'], level='p
               T('C09_order', 'full', 'compute entries already in dependency order are run in that order'),
               T('restore6', 'full', 'IPv6/UDP field list: whichever of payload length, UDP length, UDP checksum were elided (zero placeholders), running their compute functions at their stack positions, in the sorted order, regenerates the valid packet bits'),
               T('step_uc', 'full', 'udp._compute_checksum at position 11 of an IPv6/UDP list builds the pseudo-header from fields 6 and 7 and the computed UDP length'),
+              T('restoreS', 'full', 'SCTP field list: the checksum compute function at position 3 regenerates the CRC-32c of a valid packet'),
               T('restore4', 'full', 'IPv4/UDP field list: total length, header checksum (after the total length), UDP length, UDP checksum (after the UDP length) regenerate the valid packet bits, any subset elided')],
     level_text='Proved over the model of the compute functions for all inputs. Where the code locates its inputs by relative position in the rebuilt field list (pos-2, pos-9 .. pos+3, search for the source address), the theorems are stated over those same positions; that a rule in protocol order puts the right fields there, and that a packet with correct fields is reproduced bit for bit, is checked on every run by the compute and schc correspondence streams against independent RFC 1071 / 768 / 8200 / 9260 implementations (constructed wrap-around, double-carry, 0x0000 and 0xFFFF cases).')
 
